@@ -293,8 +293,11 @@ def eval_cases(suite: str, module: str, terms: list[str], check_fn="mask", extra
     return {"evaluated": evaluated, "failing": failing, "masks": masks, "errors": errors, "shards": len(shards), "coq_s": round(time.time() - t0, 1)}
 
 
-def explain(suite: str, module: str, term: str, expr="run c", extra_header="") -> str:
+def explain(suite: str, module: str, term: str, expr=None, extra_header="") -> str:
     """Model's own value on one case (printed by Coq) for the replay file."""
+    if expr is None:
+        # CheckProg: the model's own per-call outcomes / records / volumes; CheckPure / CheckTrough: the verdict only
+        expr = "model_trace c" if module == "CheckProg" else "mask c"
     d = WORK / "explain"
     d.mkdir(parents=True, exist_ok=True)
     p = d / f"explain_{suite}_{os.getpid()}.v"
